@@ -62,7 +62,8 @@ Fixpoint first_match (cs : list cls) (x : xc) : option cls :=
    argument raises ValueError('Extra format chars').  gen.T07.HANDLER_LOGS records, for each log call found in the
    handlers on the read path, (site, (template is a string constant, (directives in the constant part, arguments))).
    Sites: 0 = per-line guard of _read around parseMsg, 1 = drivers.run, 2 = log.firewall (logException),
-   3/4/5 = the addMsg / inFilter / callback handlers of Irc.feedMsg, 6 = a per-line guard around feedMsg. *)
+   3/4/5 = the addMsg / inFilter / callback handlers of Irc.feedMsg, 6 = a per-line guard around feedMsg,
+   7 = the guard of callback.reset() in Irc.reset (reconnect path: inventoried and checked by handler_logs_ok, not run by the model). *)
 Definition log_entry : Type := (N * (bool * (N * N)))%type.
 Definition site_entries (site : N) : list log_entry :=
   filter (fun e => N.eqb (fst e) site) gen.T07.HANDLER_LOGS.
